@@ -13,6 +13,7 @@ import (
 	"fmt"
 	"io"
 	"net/http/httptest"
+	"runtime"
 	"sort"
 	"strconv"
 	"strings"
@@ -76,6 +77,8 @@ type sim struct {
 	nops     int   // backend / lock operations of this event
 	nUploads int   // Backend.Upload calls of this event
 	mirrorOK *ckpt // checkpoint of the mirror Replace of this event that returned nil
+
+	stall *session // armed: the next Backend.Fetch of this session parks inside the operation
 
 	nMirrorReplace int // Lock.Replace calls on SELF's mirror key in this history
 	mon            *monitors
@@ -223,6 +226,11 @@ func (b simBackend) Upload(ctx context.Context, key string, data []byte, opts *c
 	ok := f == fOK && !conflict
 	if !conflict && f != fFail {
 		s.objects[key] = object{bytes.Clone(data), imm}
+		if key == s.prefix+"checkpoint" && s.mon != nil {
+			if c, _, _, pok := parseNote(data); pok {
+				s.mon.published(c.size)
+			}
+		}
 	}
 	if rel, under := strings.CutPrefix(key, s.prefix); under && s.inEvent {
 		k, kind := showKey(rel)
@@ -244,6 +252,13 @@ func (b simBackend) Upload(ctx context.Context, key string, data []byte, opts *c
 
 func (b simBackend) Fetch(ctx context.Context, key string) ([]byte, error) {
 	s := b.s
+	if st := s.stall; st != nil && sessionOfGoroutine() == st {
+		// hold the request INSIDE this backend round-trip (no simulator lock held)
+		s.stall = nil
+		st.parked = "fetch"
+		wake <- st
+		<-st.resume
+	}
 	s.mu.Lock()
 	defer s.mu.Unlock()
 	f := s.nextFault("fetch")
@@ -302,6 +317,9 @@ func (l simLock) Replace(ctx context.Context, old ctlog.LockedCheckpoint, new []
 		s.nMirrorReplace++
 		if can && f != fFail {
 			s.mon.servable(s, new, "servable") // BEFORE applying it
+			if c, _, _, pok := parseNote(new); pok {
+				s.mon.recorded(c.size)
+			}
 		}
 	}
 	if can && f != fFail {
@@ -448,24 +466,85 @@ type session struct {
 	start, end int64
 	req        beginReq // the request, for a retrying client
 	faulted    bool     // one of its events got the planned fault list
+	gid        uint64   // its goroutine
 }
 
 var (
-	current *session // who is calling a hook
-	wake    = make(chan struct{})
+	current *session // who is calling a hook (when the goroutine is not registered)
+	wake    = make(chan *session)
+	gsess   sync.Map // goroutine id -> *session
 )
+
+// goid: the id of the calling goroutine (from the first line of its stack trace)
+func goid() uint64 {
+	var b [64]byte
+	n := runtime.Stack(b[:], false)
+	f := strings.Fields(string(b[:n]))
+	if len(f) < 2 {
+		return 0
+	}
+	id, _ := strconv.ParseUint(f[1], 10, 64)
+	return id
+}
+
+func sessionOfGoroutine() *session {
+	if v, ok := gsess.Load(goid()); ok {
+		return v.(*session)
+	}
+	return nil
+}
+
+// goroutineBlockedOnMutex: the goroutine of the session waits in sync.Mutex.Lock (all-goroutine
+// stack dump; used to tell "blocked behind another request" from "still running")
+func goroutineBlockedOnMutex(s *session) bool {
+	buf := make([]byte, 1<<20)
+	n := runtime.Stack(buf, true)
+	head := fmt.Sprintf("goroutine %d [", s.gid)
+	for _, g := range strings.Split(string(buf[:n]), "\n\n") {
+		if strings.HasPrefix(g, head) {
+			state, _, _ := strings.Cut(g[len(head):], "]")
+			return (strings.HasPrefix(state, "sync.Mutex.Lock") || strings.HasPrefix(state, "semacquire")) &&
+				strings.Contains(g, "internal/witness.(*Witness).processAddEntriesMetadata")
+		}
+	}
+	return false
+}
 
 func hookPackage(start int64) { park("pkg") }
 func hookCommit()             { park("commit") }
 
 func park(where string) {
-	s := current
+	s := sessionOfGoroutine()
+	if s == nil {
+		s = current
+	}
 	if s == nil {
 		return // a request outside any session (setup)
 	}
 	s.parked = where
-	wake <- struct{}{}
+	wake <- s
 	<-s.resume
+}
+
+// startSession starts the session's goroutine (it answers or parks: one value on wake)
+func startSession(s *session, start func()) {
+	s.parked = ""
+	ready := make(chan struct{})
+	go func() {
+		s.gid = goid()
+		gsess.Store(s.gid, s)
+		close(ready)
+		defer func() {
+			if r := recover(); r != nil {
+				s.panicv = r
+			}
+			gsess.Delete(s.gid)
+			s.done = true
+			wake <- s
+		}()
+		start()
+	}()
+	<-ready
 }
 
 // runSession runs (or resumes) the session's goroutine until it answers or parks
@@ -473,16 +552,7 @@ func runSession(s *session, start func()) {
 	current = s
 	s.parked = ""
 	if start != nil {
-		go func() {
-			defer func() {
-				if r := recover(); r != nil {
-					s.panicv = r
-				}
-				s.done = true
-				wake <- struct{}{}
-			}()
-			start()
-		}()
+		startSession(s, start)
 	} else {
 		s.resume <- struct{}{}
 	}
